@@ -364,6 +364,9 @@ def binary_cross_entropy(y_pred:Tensor, y_true:Tensor):
     if not isinstance(y_true, Tensor):
         raise TypeError(f"Expected y_true to be a Tensor but got {type(y_true)}")
     
+    if not y_pred.matches_shape(y_true):
+        raise ValueError(f"Inputs shape don't match y_pred={y_pred.shape}, y_true={y_true.shape}")
+    
     if y_pred.device == Device.CPU:
         loss_data = cpu_ops.bce_loss_forward(y_pred.data, y_true.data)
     else:
@@ -402,6 +405,9 @@ def binary_cross_entropy_with_logits(y_pred:Tensor, y_true:Tensor):
         raise TypeError(f"Expected y_pred to be a Tensor but got {type(y_pred)}")
     if not isinstance(y_true, Tensor):
         raise TypeError(f"Expected y_true to be a Tensor but got {type(y_true)}")
+    
+    if not y_pred.matches_shape(y_true):
+        raise ValueError(f"Inputs shape don't match y_pred={y_pred.shape}, y_true={y_true.shape}")
     
     if y_pred.device == Device.CPU:
         loss_data = cpu_ops.bce_with_logits_loss_forward(y_pred.data, y_true.data)
